@@ -155,6 +155,9 @@ func MakeContent(r *rand.Rand, o ContentOpts) Content {
 		switch {
 		case o.Synthetic && r.Intn(3) == 0:
 			b = refcar.Block{Cid: SyntheticCid(r), Data: Bytes(r, PickSize(r, o.Block.MaxSize))}
+			if sc, _, err := refcar.SplitCid(b.Cid); err == nil && sc.IsIdentity() {
+				b.Data = sc.Digest // an identity CID *is* its data; anything else would not be a well-formed archive
+			}
 		case o.Boundaries && r.Intn(8) == 0:
 			tot := []int{127, 128, 16383, 16384, 129, 16385}[r.Intn(6)]
 			if o.BigBoundary && r.Intn(6) == 0 {
